@@ -20,7 +20,7 @@ PROP = dict(
          "key codes x 16 modifier sets; option / layout / engine changes, learn / unlearn, select, commit, clear, jump in "
          "between), recomputed by the model from the implementation's own complete pre-state, outcome `panic` included; "
          "distinct = distinct record text. NOT counted as evaluations (oracle only, generator_stats capi_crash.*): C-API call "
-         "histories of 60 calls replayed in worker processes (quick 24 000, thorough 400 000 histories; keys over all 256 codes of "
+         "histories of 60 calls replayed in worker processes (quick 24 000, thorough 240 000 histories; keys over all 256 codes of "
          "chewing_handle_Default and the 19 named handlers, Numlock / CtrlNum keys, 13 integer options with valid and invalid "
          "values, 17 keyboard types by number and by name, 3 engines switched mid-composition, page size 1..10, threshold "
          "0..39, candidate calls with indices -1 / huge, user-phrase add / remove / lookup / enumerate / get with short caller "
@@ -53,8 +53,8 @@ PROP = dict(
         "EnvOK (explicit hypotheses of every theorem): well-formed dictionary values (one character per syllable, closed under "
         "add / update / flush / remove), an exact match is also a prefix match, the engines behave as C03 proves for the engine "
         "model, the frequency estimator returns; OpValid: candidates_per_page > 0 (the C layer validates 1..10)",
-        "Covered: the theorems do not yet cover jump_to_*_selection_point under an open list, nor select(n) / table-reading keys "
-        "while a symbol table (SymbolSelector) is open; correspondence and campaigns only there",
+        "Covered: the theorems do not yet cover jump_to_*_selection_point under an open phrase list (correspondence and campaigns "
+        "only there); SymWF: the loaded symbol tables are well formed (leaf categories named, table indices in range)",
     ],
 )
 
@@ -75,9 +75,12 @@ MANIFEST = dict(
          "initial_inv: a fresh editor satisfies it; compValid_of_cinv: EditorInv implies the precondition of C03's engine "
          "theorems. Known (state-based, F02 / F03): unlearn_phrase / set_editor_options / set_conversion_engine after which "
          "some buffered syllable has no word under an active strategy; C01_full (no exclusion) is refuted by the F02 and F03 "
-         "histories (C01_full_refuted, f03_history_panics, f02_is_known). PARTIAL: not yet covered by a theorem (predicate "
-         "Covered; C01_target is the statement without it): jump_to_*_selection_point under an open list, and - only while a "
-         "symbol TABLE (SymbolSelector) is open - select(n) and the table-reading keys (Down, Space, j, k, page keys, digits); "
+         "histories (C01_full_refuted, f03_history_panics, f02_is_known); C01_plain_histories: histories of key events (any code / "
+         "modifiers), select(n), start/cancel selecting, commit, clear, ack, layout switches and learn_phrase need no exclusion "
+         "at all. Covered by the theorems: every key in all four states (Selecting with phrase lists, special-symbol lists and "
+         "symbol tables: paging, Down/Space = PhraseSelector::next, j/k = retarget, digits = Selecting::select - a chosen phrase is "
+         "a valid selection) and every other entry point. PARTIAL: not yet covered by a theorem (predicate Covered; C01_target is "
+         "the statement without it): jump_to_{first,last,next,prev}_selection_point while a phrase candidate list is open; "
          "the C glue capi/src/io.rs. Those rest on the tie: per-operation correspondence of model and real Editor from its own "
          "pre-state (panic outcomes included, 0 differences), the editor-harness oracle (any panic / hang of an operation or "
          "accessor) and a C-API crash/hang campaign in forked workers with a per-call watchdog (all 256 key codes, options, 17 "
